@@ -38,3 +38,55 @@ Example ex_assign : let t := TStruct "s" [fa; fb; fc] false in
   dumps ex_cfg t (VStruct [("a", VInt 1); ("b", VInt 2); ("c", VBytes [104; 105])] []) = Ok [1; 2; 0; 104; 105] /\
   dumps ex_cfg t (VStruct (set_field "b" (VInt 772) [("a", VInt 1); ("b", VInt 2); ("c", VBytes [104; 105])]) []) = Ok [1; 4; 3; 104; 105].
 Proof. vm_compute. split; reflexivity. Qed.
+
+(* ---- the generated methods (Model/Methods.v: templates per field count, patched with the class's names and defaults; the model is held
+   to the byte code of the real functions on every run).  V is any value domain with Python's tuple-element comparison `veqb`. ---- *)
+From VF Require Import Model.Methods Proofs.MethodsCorrect.
+Open Scope nat_scope.
+
+(* for EVERY list of field names - whatever they are called, placeholders and builtins included - the patched __eq__ compares the classes
+   and then exactly the listed fields, in order *)
+Theorem generated_eq_is_fieldwise : forall V (veqb : V -> V -> bool) fields (a b : inst V),
+  run_eq V veqb (generate_eq V fields) a b =
+  if Nat.eqb (i_cls a) (i_cls b)
+  then do va <- mapM (getattr V a) fields; do vb <- mapM (getattr V b) fields; Ok (list_eqb veqb va vb)
+  else Ok false.
+Proof. exact eq_is_fieldwise. Qed.
+Theorem equal_exactly_when_same_type_and_all_fields_equal : forall V (veqb : V -> V -> bool) fields (a b : inst V),
+  has_fields V a fields -> has_fields V b fields ->
+  (run_eq V veqb (generate_eq V fields) a b = Ok true <->
+   i_cls a = i_cls b /\ forall d f, In f fields -> veqb (field_of V a f d) (field_of V b f d) = true).
+Proof. exact eq_true_iff. Qed.
+Theorem instances_of_different_types_are_never_equal : forall V (veqb : V -> V -> bool) fields (a b : inst V),
+  i_cls a <> i_cls b -> run_eq V veqb (generate_eq V fields) a b = Ok false.
+Proof. exact eq_never_across_classes. Qed.
+Theorem equal_instances_hash_equally : forall V (veqb : V -> V -> bool) vhash thash fields (a b : inst V),
+  (forall x y, veqb x y = true -> vhash x = vhash y) ->
+  run_eq V veqb (generate_eq V fields) a b = Ok true ->
+  run_hash V vhash thash (generate_hash V fields) a = run_hash V vhash thash (generate_hash V fields) b.
+Proof. exact equal_instances_hash_equally. Qed.
+Theorem falsy_exactly_when_all_fields_are : forall V (truthy : V -> bool) fields (a : inst V), has_fields V a fields ->
+  (run_bool V truthy (generate_bool V fields) a = Ok false <-> forall d f, In f fields -> truthy (field_of V a f d) = false).
+Proof. exact falsy_iff_all_fields_falsy. Qed.
+(* construction assigns every field in definition order: the argument given for it, or the type's default when none (or None) was given *)
+Theorem construction_assigns_arguments_or_defaults : forall V (fields : list (string * V)) args,
+  run_init V (generate_init V fields) args = Ok (init_spec V fields args).
+Proof. exact init_assigns_arguments_or_defaults. Qed.
+
+Print Assumptions equal_exactly_when_same_type_and_all_fields_equal.
+Print Assumptions equal_instances_hash_equally.
+Print Assumptions falsy_exactly_when_all_fields_are.
+Print Assumptions construction_assigns_arguments_or_defaults.
+Print Assumptions generated_eq_is_fieldwise.
+Print Assumptions instances_of_different_types_are_never_equal.
+
+(* non-vacuity: fields named like the placeholders and the builtins the templates use *)
+Example ex_methods : let fs := ["_1"; "hash"; "_0"; "any"]%string in
+  let a := mkInst 1 [("_1", 1); ("hash", 0); ("_0", 7); ("any", 0)]%string%Z in
+  let b := mkInst 1 [("_1", 2); ("hash", 0); ("_0", 7); ("any", 0)]%string%Z in
+  run_eq Z Z.eqb (generate_eq Z fs) a b = Ok false /\ run_eq Z Z.eqb (generate_eq Z fs) a a = Ok true /\
+  run_bool Z zt (generate_bool Z fs) a = Ok true /\ run_bool Z zt (generate_bool Z fs) (mkInst 1 [("_1", 0); ("hash", 0); ("_0", 0); ("any", 0)]%string%Z) = Ok false /\
+  run_init Z (generate_init Z [("x", 0); ("c", 5)]%string%Z) [None; Some 9%Z] = Ok [("x", 0); ("c", 9)]%string%Z /\
+  (do args <- bind_args Z (generate_init Z [("x", 0); ("c", 5)]%string%Z) [Some (Some 3%Z)] [("c"%string, None)]; run_init Z (generate_init Z [("x", 0); ("c", 5)]%string%Z) args)
+    = Ok [("x", 3); ("c", 5)]%string%Z.
+Proof. vm_compute. repeat split; reflexivity. Qed.
